@@ -303,7 +303,21 @@ def step (st : St) (line : String) : St × List String :=
                         recTbl := ((dig, (kv rest "sig").getD ""), (kv rest "srec").getD "none") :: st.recTbl }
             | _, _ => st
           else st
-        let govErr : List String := match ev with
+        -- C04 / C02: what the node signs and broadcasts for a local observation is the digest of exactly the observed message
+        -- (`dig=` is computed by the harness from the message fields alone), under its own address, with the message's tx hash
+        let digErr : List String :=
+          if op = "msg" || op = "inj" then
+            (outsOf iOut).filterMap fun o =>
+              if o.startsWith "O:" || o.startsWith "L:" then
+                match o.splitOn ":" with
+                | [_, a, h, _, _] =>
+                  if h ≠ dig then some s!"spec {id} signed-digest-differs-from-message {op}: the node signed {h.take 16}… but the digest of the observed message is {dig.take 16}…"
+                  else if a ≠ toHex st.cfg.ourAddr then some s!"spec {id} signed-under-foreign-address {op}: observation broadcast under {a}"
+                  else none
+                | _ => none
+              else none
+          else []
+        let govErr : List String := digErr ++ match ev with
           | .message m _ =>
             if m.emitter = st.cfg.govEmitter ∧ m.emitterChain = st.cfg.govChain ∧ iOut ≠ "-" then
               [s!"spec {id} governance-emitter-signed a chain message naming the governance emitter produced {iOut.take 80}"]
